@@ -126,6 +126,15 @@ fn laws(x: u32, y: u32) -> Option<&'static str> {
             return Some("same-type ==");
         }
     }
+    // the custom variant built directly (also for numbers that have a named
+    // variant): its number is x, and equality is numeric
+    let cu = TagType::Custom(x);
+    if u32::from(cu) != x || cu.val() != x || TagTypeId::from(cu) != id {
+        return Some("TagType::Custom(x) -> number");
+    }
+    if (cu == id) != true || (id == cu) != true || (cu == x) != true || (x == cu) != true || (cu == (x ^ 1)) != false {
+        return Some("TagType::Custom(x) == id / u32");
+    }
     // memory area types
     let aid = MemoryAreaTypeId::from(x);
     let at = MemoryAreaType::from(aid);
@@ -146,6 +155,13 @@ fn laws(x: u32, y: u32) -> Option<&'static str> {
     }
     if MemoryAreaTypeId::from(at) != aid {
         return Some("MemoryAreaTypeId::from(MemoryAreaType::from(id)) != id");
+    }
+    let acu = MemoryAreaType::Custom(x);
+    if MemoryAreaTypeId::from(acu) != aid || u32::from(MemoryAreaTypeId::from(acu)) != x {
+        return Some("MemoryAreaType::Custom(x) -> number");
+    }
+    if (aid == acu) != true || (acu == aid) != true || (MemoryAreaTypeId::from(x ^ 1) == acu) != false || (acu == MemoryAreaTypeId::from(x ^ 1)) != false {
+        return Some("MemoryAreaTypeId == MemoryAreaType::Custom(x)");
     }
     for &y in &[x, x ^ 1, y] {
         let e = x == y;
